@@ -322,7 +322,7 @@ def obligations(tier):
         for arr in (False, True):
             # separate module = separate worker processes: this module's setup_symbolic rebinding (object-dtype gap arrays, stub
             # spans) must not be active when whole alignments are constructed the ordinary way
-            obs.append(Ob(f"columns/{op}/{'ArrayAlignment' if arr else 'Alignment'}", "props.c03_columns", "mk_columns", {"op": op, "array_align": arr, "nsym": 3}, timeout=1800, group="columns"))
+            obs.append(Ob(f"columns/{op}/{'ArrayAlignment' if arr else 'Alignment'}", "props.c03_columns", "mk_columns", {"op": op, "array_align": arr, "nsym": 3}, timeout=1800, group="columns", grade="realised-input"))
     return obs
 
 
